@@ -52,6 +52,18 @@ pub fn gchar() -> BoxedStrategy<char> {
 }
 
 /// Mostly short strings (0..=8 chars), occasionally longer.
+/// A string literal of the source tree under test (see `dict`).
+pub fn gliteral() -> BoxedStrategy<String> {
+    let n = crate::dict::dict().strings.len();
+    (0..n).prop_map(|i| crate::dict::dict().strings[i].clone()).boxed()
+}
+
+/// A size at or next to a number that occurs in the source tree under test, at most `max`.
+pub fn gsize(max: usize) -> BoxedStrategy<usize> {
+    let v = crate::dict::sizes(max);
+    (0..v.len()).prop_map(move |i| v[i]).boxed()
+}
+
 pub fn gtext(min: usize) -> BoxedStrategy<String> {
     prop_oneof![
         40 => proptest::collection::vec(gchar(), min..=8),
@@ -78,6 +90,22 @@ pub fn gtext(min: usize) -> BoxedStrategy<String> {
                 v[pos] = odd;
                 v
             }),
+        // a literal of the source under test, alone or glued to an ordinary character
+        3 => (gliteral(), select(&["", "", "a", "A", "1", "/", "-"][..]), any::<bool>()).prop_map(move |(l, glue, front)| {
+            let s = if front { format!("{glue}{l}") } else { format!("{l}{glue}") };
+            let mut v: Vec<char> = s.chars().collect();
+            while v.len() < min {
+                v.push('a');
+            }
+            v
+        }),
+        // a run whose length is at or next to a number of the source under test
+        1 => (gsize(600), prop_oneof![3 => select(ALNUM), 1 => select(CASEY)], gchar()).prop_map(|(n, fill, odd)| {
+            let mut v: Vec<char> = std::iter::repeat(fill).take(n).collect();
+            let k = v.len();
+            v[k / 2] = odd;
+            v
+        }),
         // long runs of decimal digits (values around and beyond u64 / u128)
         1 => (18usize..=42, select(&['0', '1', '9'][..]), select(&['0', '5', '6', '9'][..])).prop_map(|(n, fill, last)| {
             let mut v: Vec<char> = std::iter::repeat(fill).take(n).collect();
@@ -121,7 +149,9 @@ pub fn gkey() -> BoxedStrategy<String> {
     // that two long keys of one collection usually share a long prefix
     let long = (select(FIRST), select(&['a', 'A'][..]), select(&[21usize, 22, 23, 24, 62, 63, 64, 65][..]), proptest::collection::vec(select(REST), 1..=2))
         .prop_map(|(f, fill, n, tail)| std::iter::once(f).chain(std::iter::repeat(fill).take(n)).chain(tail).collect::<String>());
-    prop_oneof![12 => short, 1 => long]
+    // valid keys among the literals of the source under test (well-known qualifier names)
+    let from_source = gliteral().prop_map(|l| if is_valid_key(&l) && l.as_bytes()[0].is_ascii_alphabetic() { l } else { "k".to_string() });
+    prop_oneof![12 => short, 1 => long, 2 => from_source]
         .prop_map(|s| {
             if s.eq_ignore_ascii_case("checksum") {
                 "checksun".to_string()
